@@ -133,6 +133,17 @@ namespace
                         if (d.code == code_info_message && token.empty()) { token = find_token(d.text); }
                     }
                 }
+                else if (kind == "include3")
+                {
+                    // the includer twice in ONE preprocessor run: the request is resolved (and its file read) a second time
+                    std::string text = "#include \"" + op.str("from") + "\"\nVDSECOND\n#include \"" + op.str("from") + "\"\n";
+                    auto pp = rt.parser_preprocessor().preprocess(rt, text, {});
+                    if (pp.has_value())
+                    {
+                        auto at = pp->find("VDSECOND");
+                        if (at != std::string::npos) { token = find_token(pp->substr(at)); }
+                    }
+                }
                 else if (kind == "include" || kind == "include2")
                 {
                     sqf::runtime::fileio::pathinfo pi;
